@@ -126,6 +126,7 @@ func runC02(ctx *Ctx) {
 		ch.AmbrDL = []int64{1000000000, 0, 139, 4000000000000}[c.Pick("AMBR-DL", 4)]
 		ch.NgKSI = byte(c.Pick("ngKSI", 7))
 		ch.AcceptOpt = uint(c.Pick("accept-shape(5GSM cause | later-release IEs | SSC mode 3)", 8))
+		ch.RejectSession = c.Pick("SMF-rejects-the-session-of-UE", 3) // 0: none; 1, 2: the first / second UE
 		// Session-AMBR of the accept in other units than 1 Mbps (TS 24.501 9.11.4.14: Kbps ... Pbps, DL and UL apart)
 		ch.SessAmbr = [][]byte{nil, {0x0b, 0x00, 0x02, 0x0b, 0x00, 0x02}, {0x01, 0xff, 0xff, 0x06, 0x00, 0x01}, {0x10, 0x00, 0x01, 0x03, 0x00, 0x64}, {0x19, 0x00, 0x01, 0x19, 0x00, 0x01}}[c.Pick("session-AMBR-units", 5)]
 		pi := n2imsis[c.Pick("imsi/plmn", len(n2imsis))]
